@@ -90,7 +90,8 @@ def input_channel(rng, data, name="input"):
         return "/dev/stdin", {}, data.hex()  # a path that happens to be standard input
     if r < 0.65:
         # file names that need care: blanks, non-ASCII, a leading dash (given as ./-name), shell metacharacters, a newline
-        name = rng.choice(["in put.dat", "\u00fcn\u00ef.json", "-dash.json", "a;b&c.bin", "x\ny.txt", "$HOME.txt", "--.json", "'q'.json", "-"]) if True else name
+        name = rng.choice(["in put.dat", "\u00fcn\u00ef.json", "-dash.json", "a;b&c.bin", "x\ny.txt", "$HOME.txt", "--.json", "'q'.json", "-",
+                           "caf\udce9.txt", "\udcff\udcfe.bin", "a\udc80b"])  # the last three are not valid UTF-8 (Latin-1 / stray bytes)
         if name == "-":
             name = "dash-only"
         return "./@FILE:%s@" % name if False else "@FILE:%s@" % name, {name: data.hex()}, None
